@@ -513,8 +513,8 @@ def device_scenarios(thorough, rnd):
     """-> list of dicts (the harness's JSON plus bookkeeping under '_')"""
     out = []
 
-    def add(name, first, frames, src="", settle=0, reconnect=False, family="timestamps", well_formed=True):
-        sc = dict(name="device/" + name, first=first_pl(first).hex(), frames=frames, src=src, reconnect=reconnect)
+    def add(name, first, frames, src="", settle=0, reconnect=False, family="timestamps", well_formed=True, **extra):
+        sc = dict(name="device/" + name, first=first_pl(first).hex(), frames=frames, src=src, reconnect=reconnect, **extra)
         if settle:
             sc["settle_ms"] = settle
         sc["_"] = dict(family=family, well_formed=well_formed, first=first)
@@ -568,7 +568,27 @@ def device_scenarios(thorough, rnd):
     for src in ("status-error", "garbage", "wrong-type", "close"):
         add("set-reader-config/%s" % src, "uptime", [dframe(61, tag_report(b"\x22" * 12, 0b0110, 1), 500)], src=src, settle=250,
             reconnect=True, family="setup")
+    # (5) peer-chosen status codes where the device renders the resulting error itself (err.Error() in the goroutine that
+    # manages the connection / in onConnect / in resetConn): SetProtocolVersion refused with the code (Connect's error),
+    # SetReaderConfig refused with it and then CloseConnection refused with it, too
+    for code in driver_status_codes(thorough, rnd):
+        add("status-code/connect-refused/%d" % code, "utc", [], settle=5, family="status", spv_status=code, no_sentinel=True)
+        add("status-code/set-reader-config-refused/%d" % code, "utc", [], settle=5, reconnect=True, family="status",
+            src_status=code, close_status=code, no_sentinel=True)
     return out
+
+
+def driver_status_codes(thorough, rnd):
+    """for every block of one hundred up to 600: its first, second, middle and last code; the codes LLRP defines; extremes"""
+    cs = set()
+    for b in range(0, 7):
+        cs |= {100 * b, 100 * b + 1, 100 * b + 50, 100 * b + 99}
+    cs |= {112, 113, 209, 210, 301, 302, 401, 402, 1000, 32768, 65535}
+    cs |= {rnd.randrange(65536) for _ in range(4)}
+    if thorough:
+        cs |= set(range(100, 520, 7))
+    cs.discard(0)
+    return sorted(cs)
 
 
 def device_crash_signature(log):
@@ -591,7 +611,7 @@ def device_check(sc, go, crash_log):
     if go.get("error") or not go.get("setup"):
         return [("device-not-set-up", "the device did not connect / negotiate / send its SetReaderConfig to the scripted reader: %s"
                  % (go.get("error") or go.get("note")))]
-    if not sc["src"] and go["sent"] == len(sc["frames"]) and not go["sentinel"]:
+    if not sc["src"] and not sc.get("no_sentinel") and go["sent"] == len(sc["frames"]) and not go["sentinel"]:
         fails.append(("device-stops-processing", "after the %d frames of scenario %s the device no longer published a well-formed event "
                       "sent on the same connection (published: %d reports, %d events of %d expected values)"
                       % (len(sc["frames"]), sc["name"], go["reports"], go["events"], go["expect"])))
@@ -599,6 +619,79 @@ def device_check(sc, go, crash_log):
         fails.append(("device-does-not-redial-after-eof", "the reader closed the stream; the device did not dial again within 5 s "
                       "(its serving call did not return, or the management loop stopped)"))
     return fails
+
+
+# ------------------------------------------------------------------ status codes: every 16-bit code through every rendering path
+def ranges(codes):
+    out, codes = [], sorted(set(codes))
+    for c in codes:
+        if out and c == out[-1][1] + 1:
+            out[-1][1] = c
+        else:
+            out.append([c, c])
+    return ["%d" % a if a == b else "%d-%d" % (a, b) for a, b in out]
+
+
+def session_codes(thorough, rnd):
+    cs = set(range(0, 2048 if not thorough else 8192)) | set(range(0, 65536, 251)) | {32767, 32768, 65535} | {1 << k for k in range(16)}
+    cs |= {rnd.randrange(65536) for _ in range(200)}
+    return sorted(cs)
+
+
+def status_sweep(exe, tier, seed):
+    """a status / error code is 16 peer-chosen bits.  (1) ALL 65536 codes as LLRPStatus.Status, FieldError.ErrorCode,
+    ParameterError.ErrorCode (also nested): encoded here, decoded by the library, Error() called DIRECTLY (fmt would recover
+    a panic and hide it in the text) — on the whole error and on its parts; (2) ~2500 codes through real sessions in which
+    the peer refuses GetSupportedVersion / SetProtocolVersion (Connect's error), GetReaderCapabilities (SendFor's error) or
+    CloseConnection (Shutdown's error), with the response type or an ErrorMessage; Error() called directly on what came back.
+    -> (violations [(sig, text, replay)], coverage dict)"""
+    rnd = random.Random(seed + 47)
+    reqs = [dict(op="decode", lo=0, hi=65535), dict(op="session", codes=session_codes(tier == "thorough", rnd))]
+    rc, lines, log = vlib.run_harness(exe, "TestVerifC10StatusSweep", "\n".join(json.dumps(r) for r in reqs) + "\n", timeout=600, tag="_sweep")
+    out, cov = [], dict(decode_calls=0, session_calls=0)
+    if len(lines) != len(reqs):
+        m = re.search(r"(panic: [^\n]*|fatal error: [^\n]*)", log)
+        out.append(("status-sweep-crash", "the status-code sweep did not finish (%d/%d answers): %s" % (len(lines), len(reqs), m.group(1) if m else log[-300:]),
+                    dict(kind="status-sweep", requests=reqs[len(lines):len(lines) + 1], log=log[-3000:])))
+    for rq, l in zip(reqs, lines):
+        r = json.loads(l)
+        cov[rq["op"] + "_calls"] = r["calls"]
+        for kind, codes in sorted((r.get("panics") or {}).items()):
+            out.append(("status-text-panics:%s" % kind.split(":")[0 if rq["op"] == "decode" else 1].replace("-errmsg", ""),
+                        "Error() called directly on the error the client produced for a peer-chosen code PANICS for %d codes (%s) — %s; %s. "
+                        "The device service logs such errors with err.Error() on goroutines that do not recover."
+                        % (len(codes), ", ".join(ranges(codes)[:12]), kind, (r.get("panic_text") or {}).get(kind, "")),
+                        dict(kind="status-sweep", path=kind, codes=ranges(codes), first_code=codes[0], panic=(r.get("panic_text") or {}).get(kind, ""),
+                             how="harness/llrp/c10_test.go TestVerifC10StatusSweep request %s" % json.dumps(dict(rq, codes=codes[:1]) if rq["op"] == "session" else dict(rq, lo=codes[0], hi=codes[0])))))
+        for kind, codes in sorted((r.get("hidden") or {}).items()):
+            out.append(("status-text-panics-hidden:%s" % kind.split(":")[0 if rq["op"] == "decode" else 1].replace("-errmsg", ""),
+                        "the text of the error the client returned contains a panic that fmt recovered while rendering a wrapped error, for %d codes (%s) — %s"
+                        % (len(codes), ", ".join(ranges(codes)[:12]), kind),
+                        dict(kind="status-sweep", path=kind, codes=ranges(codes), first_code=codes[0])))
+        if rq["op"] == "decode":
+            und = {k: v for k, v in (r.get("noerror") or {}).items() if k.startswith("undecodable") or [c for c in v if c != 0]}
+            if und:
+                out.append(("status-sweep-generator", "the sweep's own encodings are refused or yield no error: %s" % {k: ranges(v)[:5] for k, v in und.items()},
+                            dict(kind="status-sweep")))
+    # the extracted model of the text lookup (Client/StatusText.v) on all 65536 codes, for both ways of classifying
+    if lines:
+        r0 = json.loads(lines[0])
+        go_panics = ",".join(ranges((r0.get("panics") or {}).get("status", []))) or "-"
+        rc2, ol = run_oracle(["text range 0 65535", "text block 0 65535"])
+        variants = dict(zip(("range", "block"), [dict(kv.split("=") for kv in l.split()) for l in ol])) if rc2 == 0 and len(ol) == 2 else {}
+        agree = [v for v, m in variants.items() if m["panics"] == go_panics and int(m["table"]) == r0.get("table_texts")]
+        cov["text_model"] = dict(go_panics=go_panics, go_table_texts=r0.get("table_texts"), model=variants, agreeing=agree)
+        if not agree and not any(sig.startswith("status-text-panics") for sig, _, _ in out):
+            out.append(("model-differs:status-text", "neither way of classifying codes in the model of the text lookup (Client/StatusText.v) gives what "
+                        "the library does on the 65536 codes: library panics on %s, %s table texts; model %s" % (go_panics, r0.get("table_texts"), variants),
+                        dict(kind="status-sweep", correspondence="C10/defaultText-vs-default_text")))
+    # one violation per signature (several kinds map to one signature)
+    seen, uniq = set(), []
+    for sig, text, rp in out:
+        if sig not in seen:
+            seen.add(sig)
+            uniq.append((sig, text, rp))
+    return uniq, cov
 
 
 # ------------------------------------------------------------------ discovery level: probe() against a scripted host
@@ -652,6 +745,12 @@ def probe_scenarios(thorough, rnd):
             if thorough or oc in ("answer", "error-status") or mname in ("error-message", "half", "none"):
                 if thorough or not (mname in slow and oc != "answer"):
                     add("caps-%s/%s" % (mname, oc), ok_c, m, oc)
+    # peer-chosen status codes where probe renders the error itself (err.Error() on Connect's error and on Shutdown's)
+    for code in driver_status_codes(thorough, rnd)[::1 if thorough else 2]:
+        out.append(dict(name="probe/status-code/connect-refused/%d" % code, first=first, config=ok_c, caps=ok_k, on_close="answer",
+                        timeout_ms=100, spv_status=code))
+        out.append(dict(name="probe/status-code/close-refused/%d" % code, first=first, config=dict(typ=12, phex=status_msg(code, b"")[0].hex()),
+                        caps=ok_k, on_close="error-status", close_status=code, timeout_ms=100))
     # both requests fail
     for mname, m in modes(12, config_ok)[1:4]:
         add("config-%s+caps-%s/answer" % (mname, mname), m, dict(modes(11, caps_ok))[mname], "answer")
@@ -753,7 +852,7 @@ def device_model(scs, answers, crash_of, abstr):
     usable = []
     for i, sc in enumerate(scs):
         a = answers.get(i)
-        if sc["src"] or not abstr.get(i):
+        if sc["src"] or sc.get("no_sentinel") or not abstr.get(i):
             continue
         if a is not None and a.get("setup") and a.get("sent") == len(sc["frames"]):
             usable.append((i, False, a))
@@ -1124,6 +1223,12 @@ def run(tier, seed, replay=None):
         pth = threading.Thread(target=lambda: pbox.update(r=run_probe_family(exed, tier, seed, ponly)))
         pth.start()
 
+    sbox = {}
+    sth = None
+    if not replay:
+        sth = threading.Thread(target=lambda: sbox.update(r=status_sweep(exe, tier, seed)))
+        sth.start()
+
     flags, probes, pans, pcr = probe_flags(exe)
     res.notes.append("behaviour flags of this tree (probed): " + ", ".join("%s=%s" % kv for kv in zip(FLAG_NAMES, flags))
                      + "; never-reply types: %s" % NEVER_REPLY)
@@ -1237,7 +1342,7 @@ def run(tier, seed, replay=None):
                 fam = "device-" + dsc["_"]["family"]
                 dist[fam] = dist.get(fam, 0) + 1
                 nontriv.add(dsc["name"])
-                if a and dsc["_"]["well_formed"]:
+                if a and dsc["_"]["well_formed"] and dsc["frames"]:
                     if all(a.get("dec_ok") or [False]):
                         dev_wellformed += 1
                     elif "device-generator" not in dby:
@@ -1253,6 +1358,19 @@ def run(tier, seed, replay=None):
                                                      theorems="coq/Props/C10.v C10_device_goroutines_never_panic (holds for variants 00, 01, 11), "
                                                               "C10_device_goroutines_never_panic_refuted (variant 10)")),
                               found_input=sig not in ("device-generator", "device-not-set-up", "model-differs:device"))
+
+    # status codes
+    sweep_cov = {}
+    if sth is not None:
+        sth.join()
+        if "r" not in sbox:
+            res.violation("harness-run", "the status-code sweep did not run", dict(kind="harness"), False)
+        else:
+            sv, sweep_cov = sbox["r"]
+            evals += 2
+            dist["status-sweep"] = 2
+            for sig, text, rp in sv:
+                res.violation(sig, text, rp, found_input=sig not in ("status-sweep-generator", "model-differs:status-text"))
 
     # discovery level
     probe_evals = probe_reached = 0
@@ -1305,6 +1423,8 @@ def run(tier, seed, replay=None):
                                "parameters, RF survey entries stamped either way, every truncation / 16-bit corruption of such messages, "
                                "reports around the buffering limit, misbehaviour on the device's own SetReaderConfig; judged: process "
                                "survival, a sentinel event still published, the device dials again after the stream ended"),
+        status_code_sweep=dict(sweep_cov, what="all 65536 codes as LLRPStatus / FieldError / ParameterError decoded and rendered by a direct Error() call; "
+                               "~2500 codes through refusals at 8 stages of real sessions, Error() called directly on Connect's / SendFor's / Shutdown's error"),
         probe_level=dict(scenarios=probe_evals, hosts_that_got_as_far_as_GetReaderConfig=probe_reached,
                          what="probe() (discovery) against a scripted loopback host that negotiates properly and then misbehaves on "
                               "GetReaderConfig / GetReaderCapabilities / CloseConnection; judged: process survival, probe returns"),
